@@ -7,12 +7,12 @@ ID = "C17"
 MANIFEST = (
     "fault_enumeration",
     "runtime monitor + sanitizers: single-fault enumeration and seeded multi-fault mutation of valid (mesh, parameter) file pairs; every mutant is parsed by the real start-up path (simulation_initializer, as in main) in a forked ASan+UBSan child with CPU / memory budgets; allocator and stack-depth artefacts of ASan are re-judged in the uninstrumented build under RLIMIT_AS; libFuzzer (clang, ASan+UBSan) campaigns on the reader translation units, artefacts judged by the same harness",
-    "Complete over the enumerated fault space: for each base pair (quick: one triangulated cube; thorough: + two cubes with polygonal faces, two icosahedral spheres) every whitespace token of the mesh file and every leaf element of the parameter file x {delete, duplicate, empty, -1, 0, 4294967296, 20-digit integer, 1e999, nan, inf, abc, 99, 2147483647, 1431655765 and 1431655766 (3x wraps in 32 bits), white space as character reference / CDATA section, 10^5-digit number}, every line and every section / non-leaf element removed, duplicated and swapped with its neighbour, truncation at every byte offset of both files, and the consistent-empty records of the mesh file (zero points, cell line '0', cell without faces, faces without points) (quick 9.9e3, thorough 3.4e4 mutants); each mutant either completes start-up or is rejected through an exception derived from std::exception, without signal, sanitizer report, terminate, non-std exception, CPU time above 100x the slowest legitimate case (scaled by input size, confirmed by a second run) or more than 2 GB resident. Beyond the enumeration, 2e3 (quick) / 1e5 (thorough) seeded random multi-mutations (2-5 edits incl. byte-level edits and boundary integers) and two coverage-guided libFuzzer campaigns (mesh reader: quick 1e4 / thorough 2e5 executions; parameter reader: 2e4 / 1e6) are explored, which is sampling, not enumeration.",
+    "Complete over the enumerated fault space: for each base pair (quick: one triangulated cube; thorough: + two cubes with polygonal faces, two icosahedral spheres) every whitespace token of the mesh file and every leaf element of the parameter file x {delete, duplicate, empty, -1, 0, 4294967296, 20-digit integer, 1e999, nan, inf, abc, 99, 2147483647, 1431655765 and 1431655766 (3x wraps in 32 bits), white space as character reference / CDATA section, the token followed by 3e5 blanks, 10^5-digit number}, every line and every section / non-leaf element removed, duplicated and swapped with its neighbour, truncation at every byte offset of both files, and the consistent-empty records of the mesh file (zero points, cell line '0', cell without faces, faces without points) (quick 1.0e4, thorough 3.6e4 mutants); each mutant either completes start-up or is rejected through an exception derived from std::exception, without signal, sanitizer report, terminate, non-std exception, CPU time above 100x the slowest legitimate case (scaled by input size, confirmed by a second run) or more than 2 GB resident. Beyond the enumeration, 2e3 (quick) / 1e5 (thorough) seeded random multi-mutations (2-5 edits incl. byte-level edits and boundary integers) and two coverage-guided libFuzzer campaigns (mesh reader: quick 1e4 / thorough 2e5 executions; parameter reader: 2e4 / 1e6) are explored, which is sampling, not enumeration.",
     "Surface reconstruction is off in the base files (start-up = parse + validate + cell construction); when a mutant switches it on, time and memory depend on geometry / min_edge_length and budget overruns are excluded (DESIGN C17 limits); multi-fault inputs are sampled; the libFuzzer targets cover the reader translation units only (the rest of the repository does not compile with clang) and their artefacts count only when the gcc-built harness reproduces them.",
     "DESIGN.md section 3, C17",
 )
 
-TOKEN_OPS = ["delete", "duplicate", "empty", "val:-1", "val:0", "val:4294967296", "val:20digit", "val:1e999", "val:nan", "val:inf", "val:abc", "val:99", "val:2147483647", "val:1431655765", "val:1431655766", "val:charref_space", "val:cdata_space", "val:1e5digits"]
+TOKEN_OPS = ["delete", "duplicate", "empty", "val:-1", "val:0", "val:4294967296", "val:20digit", "val:1e999", "val:nan", "val:inf", "val:abc", "val:99", "val:2147483647", "val:1431655765", "val:1431655766", "val:charref_space", "val:cdata_space", "val:followed_by_3e5_blanks", "val:1e5digits"]
 BLOCK_OPS = ["remove", "duplicate", "swap"]
 ALL_OPS = (["vtk.token." + o for o in TOKEN_OPS] + ["xml.elem." + o for o in TOKEN_OPS] + [k + ".line." + o for k in ("vtk", "xml") for o in BLOCK_OPS] +
            [k + ".section." + o for k in ("vtk", "xml") for o in BLOCK_OPS] + ["vtk.trunc", "xml.trunc"] +
